@@ -1,11 +1,11 @@
 package main
 
 import (
-	"os/exec"
 	"encoding/json"
 	"flag"
 	"fmt"
 	"os"
+	"os/exec"
 	"path/filepath"
 	"sort"
 	"strings"
